@@ -42,11 +42,16 @@ def session_json(s, rng):
             half = (len(cons) + 1) // 2
             return {"IsCurrent": current, "Cards": [{"Id": 1, "Contests": cons[:half]}, {"Id": 2, "Contests": cons[half:]}]}
         return {"IsCurrent": current, "Contests": cons}
+    # the IsCurrent flags are data the statement gives no role to: usually as the vendor writes them, sometimes not
+    # (either value, or the key absent)
+    usual = rng.random() < 0.6
     for k in s["keys"]:
         if k == "Original":
-            d["Original"] = body(s["orig"], "Modified" not in s["keys"])
+            d["Original"] = body(s["orig"], ("Modified" not in s["keys"]) if usual else rng.choice([True, False]))
         else:
-            d["Modified"] = body(s["modi"], True)
+            d["Modified"] = body(s["modi"], True if usual else rng.choice([True, False]))
+        if not usual and rng.random() < 0.3:
+            d[k].pop("IsCurrent")
     return d
 
 
